@@ -163,6 +163,23 @@ def main(tier, replay=None):
             y = math.nextafter(y, math.inf if rng.random() < 0.5 else -math.inf)
         lp.append((FL(x), FL(y)))
         lp.append((FL(y), FL(x)))
+    # values that sit at the seams of the order: blanks against date-times whose serial is zero or below one, text spelled like
+    # a logical or a number against logicals and numbers, the empty text, zero in its three types
+    seam = [{'t': 'blank'}, enc(0), enc(False), enc(True), enc(''), enc(1), {'t': 'num', 'n': 0, 'd': 1, 'f': True},
+            {'t': 'date', 'y': 1900, 'mo': 1, 'd': 1, 'ms': 0}, {'t': 'date', 'y': 1900, 'mo': 1, 'd': 1, 'ms': 43200000},
+            {'t': 'date', 'y': 1900, 'mo': 1, 'd': 2, 'ms': 0}, {'t': 'date', 'y': 1900, 'mo': 2, 'd': 28, 'ms': 0},
+            {'t': 'date', 'y': 1900, 'mo': 3, 'd': 1, 'ms': 0}] + \
+           [enc(t) for t in ('TRUE', 'FALSE', 'true', 'False', 'WAHR', 'VRAI', 'FALSO', '1', '0', '-1', ' ', 'zzz', 'A', 'a', '#N/A')]
+    for a in seam:
+        for b in seam:
+            lp.append((a, b))
+    # the same pairs against the specification's order, under every operator
+    for a in seam:
+        for b in seam:
+            for op in OPS:
+                o = observe(lib, [{'a': a, 'b': b, 'op': op, 'mode': 'var'}])[0]
+                o['id'] = len(obs) + 1
+                obs.append(o)
     for o in laws_obs(lib, lp):
         o['id'] = len(obs) + 1
         obs.append(o)
